@@ -19,6 +19,7 @@ import (
 	"io"
 	"net"
 	"net/http"
+	"runtime"
 	"strings"
 	"sync"
 	"sync/atomic"
@@ -142,6 +143,9 @@ type c22Op struct {
 	Op   string `json:"op"`             // send | junk | probe | sync
 	From string `json:"from,omitempty"` // O | O2 | A | B
 	Seq  int    `json:"seq,omitempty"`
+	// unrelated SOCKS5 requests handled by the same server on other control connections
+	Mode string   `json:"mode,omitempty"` // sequential | concurrent | background
+	Reqs []string `json:"requests,omitempty"`
 }
 
 type c22Scenario struct {
@@ -162,6 +166,7 @@ type c22Scenario struct {
 type c22Server struct {
 	srv  *socks5.Server
 	h    *c22Handler
+	d    *c22Dialer
 	addr  string // host:port to connect to
 	udpIP net.IP // where the relay sockets of this server are reachable
 	ws    string
@@ -171,13 +176,16 @@ func c22StartServer(listen, connectIP string) (*c22Server, error) {
 	h := &c22Handler{}
 	cfg := socks5.DefaultServerConfig()
 	cfg.Address = listen + ":0"
+	d := &c22Dialer{}
+	cfg.Dialer = d
 	srv := socks5.NewServer(cfg)
 	srv.SetUDPHandler(h)
+	srv.SetICMPHandler(&c22ICMP{})
 	if err := srv.Start(); err != nil {
 		return nil, err
 	}
 	_, port, _ := net.SplitHostPort(srv.Address().String())
-	s := &c22Server{srv: srv, h: h, addr: net.JoinHostPort(connectIP, port), udpIP: net.ParseIP(connectIP)}
+	s := &c22Server{srv: srv, h: h, d: d, addr: net.JoinHostPort(connectIP, port), udpIP: net.ParseIP(connectIP)}
 	if err := srv.StartWebSocket(socks5.WebSocketConfig{Address: "127.0.0.1:0", Path: "/socks5", PlainText: true}); err != nil {
 		srv.Stop()
 		return nil, err
@@ -227,12 +235,149 @@ func (w *c22WS) finish() { w.c.Close(websocket.StatusNormalClosure, "") }
 
 func c22V4(ip string) []byte { return net.ParseIP(ip).To4() }
 
+// ---------------------------------------------------------------- unrelated SOCKS5 traffic
+
+// c22Dialer serves the CONNECT requests of the unrelated traffic: refused or a connection
+// that stays open until the relay lets go. It never touches the network.
+type c22Dialer struct{ refuse atomic.Bool }
+
+func (d *c22Dialer) Dial(n, a string) (net.Conn, error) {
+	return d.DialContext(context.Background(), n, a)
+}
+func (d *c22Dialer) DialContext(context.Context, string, string) (net.Conn, error) {
+	if d.refuse.Load() {
+		return nil, &net.OpError{Op: "dial", Net: "tcp", Err: fmt.Errorf("connection refused")}
+	}
+	return &c22Sink{done: make(chan struct{})}, nil
+}
+
+type c22Sink struct {
+	done chan struct{}
+	once sync.Once
+}
+
+func (t *c22Sink) Read([]byte) (int, error)         { <-t.done; return 0, io.EOF }
+func (t *c22Sink) Write(b []byte) (int, error)      { return len(b), nil }
+func (t *c22Sink) Close() error                     { t.once.Do(func() { close(t.done) }); return nil }
+func (t *c22Sink) CloseWrite() error                { return t.Close() }
+func (t *c22Sink) LocalAddr() net.Addr              { return &net.TCPAddr{IP: net.IPv4(10, 0, 0, 9), Port: 4242} }
+func (t *c22Sink) RemoteAddr() net.Addr             { return &net.TCPAddr{IP: net.IPv4(192, 0, 2, 1), Port: 1} }
+func (t *c22Sink) SetDeadline(time.Time) error      { return nil }
+func (t *c22Sink) SetReadDeadline(time.Time) error  { return nil }
+func (t *c22Sink) SetWriteDeadline(time.Time) error { return nil }
+
+type c22ICMP struct{ next atomic.Uint64 }
+
+func (u *c22ICMP) CreateICMPSession(context.Context, net.IP) (uint64, error) {
+	return u.next.Add(1), nil
+}
+func (u *c22ICMP) SetSOCKS5ICMPAssociation(uint64, *socks5.ICMPAssociation) {}
+func (u *c22ICMP) RelayICMPEcho(uint64, uint16, uint16, []byte) error       { return nil }
+func (u *c22ICMP) CloseICMPSession(uint64)                                  {}
+func (u *c22ICMP) IsICMPEnabled() bool                                      { return true }
+
+type c22Req struct {
+	desc  string
+	from  string // source IP of the control connection
+	bytes []byte
+	wait  bool // read the reply before half-closing
+}
+
+// c22GenTraffic draws n unrelated requests. Their destination addresses are mostly the
+// strangers' addresses: whatever the server does with them must never change who owns an
+// association that is already open.
+func c22GenTraffic(rng *verifkit.Rand, sc *c22Scenario, ports map[string]int, n int) []c22Req {
+	var out []c22Req
+	for i := 0; i < n; i++ {
+		who := verifkit.Pick(rng, []string{"A", "A", "B", "B", "B", "O", "X"})
+		ip := map[string]string{"A": sc.AIP, "B": sc.BIP, "O": sc.OwnerIP, "X": "10.9.8.7"}[who]
+		port := ports[who]
+		if port == 0 || rng.Chance(1, 4) {
+			port = rng.Range(1, 65535)
+		}
+		cmd := verifkit.Pick(rng, []byte{1, 1, 1, 3, 4})
+		b := []byte{5, 1, 0, 5, cmd, 0}
+		form := "v4"
+		switch k := rng.Intn(10); {
+		case k < 7:
+			b = append(b, 1)
+			b = append(b, c22V4(ip)...)
+		case k < 8:
+			form = "v4-mapped"
+			b = append(b, 4)
+			b = append(b, net.ParseIP(ip).To16()...)
+		default:
+			form = "domain"
+			b = append(b, 3, byte(len(ip)))
+			b = append(b, ip...)
+		}
+		b = append(b, byte(port>>8), byte(port))
+		out = append(out, c22Req{
+			desc:  fmt.Sprintf("cmd%d->%s(%s %s):%d", cmd, who, ip, form, port),
+			from:  verifkit.Pick(rng, []string{sc.OwnerIP, sc.AIP, sc.BIP}),
+			bytes: b,
+			wait:  rng.Bool(),
+		})
+	}
+	return out
+}
+
+// c22DoRequest runs one unrelated request to completion (the server has closed the
+// connection when it returns). The answer is not judged here (that is C23's business).
+func c22DoRequest(sv *c22Server, q c22Req) error {
+	d := net.Dialer{LocalAddr: &net.TCPAddr{IP: net.ParseIP(q.from)}, Timeout: c22Watchdog}
+	c, err := d.Dial("tcp", sv.addr)
+	if err != nil {
+		return fmt.Errorf("unrelated request: dial: %w", err)
+	}
+	defer c.Close()
+	c.SetDeadline(time.Now().Add(c22Watchdog))
+	if _, err := c.Write(q.bytes); err != nil {
+		return fmt.Errorf("unrelated request: write: %w", err)
+	}
+	if q.wait {
+		if _, err := io.ReadFull(c, make([]byte, 12)); err != nil {
+			return fmt.Errorf("unrelated request %s: no reply: %w", q.desc, err)
+		}
+	}
+	c.(*net.TCPConn).CloseWrite()
+	if _, err := io.Copy(io.Discard, c); err != nil {
+		if ne, ok := err.(net.Error); ok && ne.Timeout() {
+			return fmt.Errorf("unrelated request %s: server did not finish within the watchdog", q.desc)
+		}
+	}
+	return nil
+}
+
+// c22RunTraffic handles the requests one after the other or all at once.
+func c22RunTraffic(sv *c22Server, reqs []c22Req, concurrent bool) error {
+	if !concurrent {
+		for _, q := range reqs {
+			if err := c22DoRequest(sv, q); err != nil {
+				return err
+			}
+		}
+		return nil
+	}
+	errs := make(chan error, len(reqs))
+	for _, q := range reqs {
+		go func(q c22Req) { errs <- c22DoRequest(sv, q) }(q)
+	}
+	var first error
+	for range reqs {
+		if err := <-errs; err != nil && first == nil {
+			first = err
+		}
+	}
+	return first
+}
+
 func c22Datagram(payload string) []byte {
 	// RSV RSV FRAG ATYP=1 DST=10.9.8.7 PORT=53
 	return append([]byte{0, 0, 0, 1, 10, 9, 8, 7, 0, 53}, payload...)
 }
 
-func c22RunCase(r *verifkit.R, phase string, ci int, rng *verifkit.Rand, servers []*c22Server, skipOther *int) {
+func c22RunCase(r *verifkit.R, phase string, ci int, rng *verifkit.Rand, servers []*c22Server, skipOther *int, seqOnly bool) {
 	ips := []string{"127.0.0.1", "127.0.0.2", "127.0.0.3"}
 	verifkit.Shuffle(rng, ips)
 	sc := c22Scenario{OwnerIP: ips[0], AIP: ips[1], BIP: ips[2], Control: "tcp"}
@@ -503,6 +648,67 @@ func c22RunCase(r *verifkit.R, phase string, ci int, rng *verifkit.Rand, servers
 		return true
 	}
 
+	// unrelated traffic on other control connections of the same server
+	ports := map[string]int{"O": port("O"), "A": port("A"), "B": port("B")}
+	var bg chan error
+	joinBG := func() bool {
+		if bg == nil {
+			return true
+		}
+		err := <-bg
+		bg = nil
+		if err != nil {
+			inconclusive(err.Error())
+			return false
+		}
+		return true
+	}
+	defer func() {
+		if bg != nil {
+			<-bg
+		}
+	}()
+	traffic := func() bool {
+		n := rng.Range(1, 6)
+		if rng.Chance(1, 6) {
+			n = rng.Range(8, 24)
+		}
+		reqs := c22GenTraffic(rng, &sc, ports, n)
+		mode := verifkit.Pick(rng, []string{"sequential", "sequential", "concurrent", "background"})
+		if seqOnly {
+			mode = "sequential"
+		}
+		sv.d.refuse.Store(rng.Bool())
+		op := c22Op{Op: "traffic", Mode: mode}
+		for _, q := range reqs {
+			op.Reqs = append(op.Reqs, q.desc)
+		}
+		sc.Ops = append(sc.Ops, op)
+		r.Add("unrelated_requests", len(reqs))
+		r.Add("unrelated_bursts_"+mode, 1)
+		if mode == "background" {
+			if !joinBG() {
+				return false
+			}
+			ch := make(chan error, 1)
+			bg = ch
+			conc := rng.Bool()
+			go func() { ch <- c22RunTraffic(sv, reqs, conc) }()
+			return true
+		}
+		if err := c22RunTraffic(sv, reqs, mode == "concurrent"); err != nil {
+			inconclusive(err.Error())
+			return false
+		}
+		return true
+	}
+	if rng.Chance(1, 2) {
+		// before the relay socket has seen anything
+		if !traffic() {
+			return
+		}
+	}
+
 	// schedule: the first sender is drawn uniformly so that every arrival order occurs
 	first := verifkit.Pick(rng, []string{"O", "A", "B"})
 	sc.FirstFrom = first
@@ -520,7 +726,11 @@ func c22RunCase(r *verifkit.R, phase string, ci int, rng *verifkit.Rand, servers
 	}
 	nops := rng.Range(4, 40)
 	for i := 0; i < nops && synced; i++ {
-		switch k := rng.Intn(20); {
+		switch k := rng.Intn(24); {
+		case k >= 20:
+			if !traffic() {
+				return
+			}
 		case k < 12:
 			from := verifkit.Pick(rng, []string{"O", "O", "O2", "A", "A", "B", "B"})
 			send(from, "data")
@@ -540,6 +750,17 @@ func c22RunCase(r *verifkit.R, phase string, ci int, rng *verifkit.Rand, servers
 			}
 		default:
 			doSync()
+		}
+	}
+	if !joinBG() {
+		return
+	}
+	if synced && rng.Chance(1, 2) {
+		// strangers try once more after all the unrelated traffic has been handled
+		for _, from := range []string{"A", "B"} {
+			send(from, "data")
+			sent[from]++
+			sc.Ops = append(sc.Ops, c22Op{Op: "send", From: from, Seq: seq})
 		}
 	}
 	if synced && doSync() {
@@ -595,7 +816,7 @@ func c22RunCase(r *verifkit.R, phase string, ci int, rng *verifkit.Rand, servers
 
 func TestVerif_C22(t *testing.T) {
 	r := verifkit.Start(t, "C22", "udp")
-	r.Rule("one UDP association per case over a real socks5.Server (TCP or WebSocket control channel) with owner and two strangers on 127.0.0.1/.2/.3; " +
+	r.Rule("one UDP association per case over a real socks5.Server (TCP or WebSocket control channel) with owner and two strangers on 127.0.0.1/.2/.3, while the same server handles unrelated CONNECT / UDP ASSOCIATE / ICMP requests naming the strangers' addresses on other control connections (sequentially, concurrently, in the background; one phase under GOMAXPROCS(1)); " +
 		"non-trivial = at least one stranger sent, at least one owner datagram was relayed and the schedule was synchronised to its end; distinct by (control, announced-address form, operation list)")
 	r.Assume("client identity is judged by source IP (RFC 1928 section 7), not by port; an address the owner itself announces in UDP ASSOCIATE counts as the owner's")
 	r.Assume("datagrams sent sequentially on loopback are queued in send order at the relay socket (used only to know when a schedule has been consumed; a violation is always a positive observation)")
@@ -619,9 +840,20 @@ func TestVerif_C22(t *testing.T) {
 		servers = append(servers, s)
 	}
 	skipOther := 0
-	r.Cases("assoc", r.N(800, 12000), func(i int, rng *verifkit.Rand) {
-		c22RunCase(r, "assoc", i, rng, servers, &skipOther)
+	// phase 1: one scheduler thread and strictly sequential unrelated requests, so that anything
+	// the server recycles between requests (pooled buffers, per-P caches) is reused at once
+	func() {
+		prev := runtime.GOMAXPROCS(1)
+		defer runtime.GOMAXPROCS(prev)
+		r.Cases("assoc1p", r.N(300, 3000), func(i int, rng *verifkit.Rand) {
+			c22RunCase(r, "assoc1p", i, rng, servers, &skipOther, true)
+		})
+	}()
+	// phase 2: all threads; unrelated requests sequential, concurrent and in the background
+	r.Cases("assoc", r.N(700, 12000), func(i int, rng *verifkit.Rand) {
+		c22RunCase(r, "assoc", i, rng, servers, &skipOther, false)
 	})
+	r.Require("unrelated_requests", 2000)
 	r.Require("associations", 300)
 	r.Require("first_sender_stranger", 100)
 	r.Require("first_sender_owner", 50)
